@@ -1,7 +1,7 @@
 (* gateway.go: fieldURLs / Concat / RegisterURL — the routing table lists, under each key, exactly
    the locations whose schema declares that key. *)
 From Coq Require Import String Ascii List Bool Arith.
-From GW Require Import Base.Res Base.GoStr Gql.Schema Gw.Merge Gw.MergeCheck.
+From GW Require Import Base.Res Base.GoStr Gql.Schema Gw.Merge Gw.MergeCheck Gw.Locate.
 Import ListNotations.
 Open Scope string_scope.
 Open Scope list_scope.
@@ -100,3 +100,45 @@ Proof.
   rewrite G. simpl. tauto.
 Qed.
 
+
+(* ---- no entry of the table is empty: URLFor never hands the chooser an empty list ---- *)
+Definition ne_map (m : urlmap) : Prop := Forall (fun kv => snd kv <> []) m.
+
+Lemma register_url_ne key loc m : ne_map m -> ne_map (register_url key loc m).
+Proof.
+  unfold ne_map. induction m as [|[k l] r IH]; intros H; simpl.
+  - constructor; [simpl; discriminate|constructor].
+  - inversion H as [|? ? Hh Ht]; subst. destruct (String.eqb k key).
+    + constructor; [simpl; intros E; apply app_eq_nil in E; destruct E; discriminate|exact Ht].
+    + constructor; [exact Hh|apply IH; exact Ht].
+Qed.
+
+Lemma fold_left_preserves {A B} (P : A -> Prop) (f : A -> B -> A) :
+  (forall a b, P a -> P (f a b)) -> forall l a, P a -> P (fold_left f l a).
+Proof. intros Hf. induction l as [|b r IH]; intros a Ha; simpl; [exact Ha|]. apply IH, Hf, Ha. Qed.
+
+Lemma field_urls_ne sources strip : ne_map (field_urls sources strip).
+Proof.
+  unfold field_urls. apply fold_left_preserves; [|constructor].
+  intros m [url sch] Hm. apply fold_left_preserves; [|exact Hm].
+  intros m' d Hm'. destruct (negb (has_prefix2 (df_name d)) || negb strip); [|exact Hm'].
+  apply fold_left_preserves; [|apply register_url_ne; exact Hm'].
+  intros m'' f Hm''. destruct (negb _); [apply register_url_ne; exact Hm''|].
+  destruct (negb strip); [apply register_url_ne; exact Hm''|exact Hm''].
+Qed.
+
+Theorem gateway_urls_ne iloc sources internal qft : ne_map (gateway_urls iloc sources internal qft).
+Proof.
+  unfold gateway_urls. apply fold_left_preserves.
+  - intros m t Hm. apply register_url_ne. exact Hm.
+  - unfold concat_urls. apply fold_left_preserves; [|apply field_urls_ne].
+    intros m kv Hm. apply fold_left_preserves; [|exact Hm]. intros m' loc Hm'. apply register_url_ne. exact Hm'.
+Qed.
+
+Lemma ne_map_assoc m key l : ne_map m -> Locate.assoc key m = Some l -> l <> [].
+Proof.
+  unfold ne_map. induction m as [|[k v] r IH]; intros H E; simpl in E; [discriminate|].
+  inversion H as [|? ? Hh Ht]; subst. destruct (String.eqb key k).
+  - injection E as <-. exact Hh.
+  - apply IH; assumption.
+Qed.
